@@ -13,6 +13,8 @@
                      attribute left out of the pickle is rebuilt from ALL constructor arguments it was derived from, taken from the
                      saved state (a tree rebuilt with the default elimination order need not be the tree the saved cliques,
                      potentials and cached marginals belong to)
+  pair-schedule       the pairwise joints of calculate_many_marginals are built in an order that stores the joint of (Ci, Cl) before it is read
+                      (distance-sorted pairs + all-pairs predecessors, or pairs of self.cliques + depth-first parent map from self.cliques[0])
 Not decided: numeric equality with the explicit joint; the pickle round trip of the attribute values themselves (trusted).
 """
 import ast
